@@ -106,7 +106,10 @@ impl NamespaceProof {
         // for each tree level. Based on that we can recompute the total amount
         // of leaves in a tree.
         if self.end_idx().saturating_sub(self.start_idx()) == 1 {
-            Some(1 << self.siblings().len())
+            // the amount of siblings comes from the (untrusted) wire, `1 << n` must not overflow
+            u32::try_from(self.siblings().len())
+                .ok()
+                .and_then(|levels| 1usize.checked_shl(levels))
         } else {
             None
         }
